@@ -189,9 +189,16 @@ func genC02(tier string, seed uint64, run int) *Scenario {
 	}
 	s := t + 1 + r.IntN(n-t)
 	sc := &Scenario{Check: "C02", Kind: "proto", Seed: seed, Run: run, P: map[string]interface{}{
-		"proto": "ed-sign", "n": n, "t": t, "signers": s, "ids": idPatterns[r.IntN(len(idPatterns))], "idpool": r.IntN(3), "msg": edMsgKinds[run%len(edMsgKinds)],
+		"proto": "ed-sign", "n": n, "t": t, "signers": s, "ids": idPatterns[r.IntN(len(idPatterns))], "idpool": r.IntN(60), "msg": edMsgKinds[run%len(edMsgKinds)],
 		"edges": (run/4)%2 == 1,
 	}}
+	if run%32 == 3 {
+		// directed: a key and signer set whose session id has a leading zero byte
+		n, t = 10, 1+r.IntN(3)
+		s = t + 1 + r.IntN(n-t)
+		sc.P["n"], sc.P["t"], sc.P["signers"] = n, t, s
+		sc.P["shortssid"] = true
+	}
 	sc.Sched = GenSched(r, s, true, false)
 	return sc
 }
@@ -219,6 +226,14 @@ func genC01(tier string, seed uint64, run int) *Scenario {
 			s = 3 + r.IntN(3)
 		} else if run%5 == 4 {
 			s = 4
+		}
+		if run%2 == 1 {
+			// the vendored key with one party's ring-Pedersen generators re-randomised: another key set, so
+			// another session id (the 26 signer subsets of the vendored key give 26 session ids for ever)
+			p["rerand"] = 1 + r.IntN(1<<20)
+		}
+		if run%16 == 5 {
+			p["shortssid"] = true // re-randomised until the session id has a leading zero byte
 		}
 	}
 	p["signers"] = s
@@ -296,6 +311,9 @@ func fillProtoParams(r *rand.Rand, tier string, proto string, p map[string]inter
 			}
 			p["signers"] = s
 			p["msg"] = ecDigestKinds[r.IntN(len(ecDigestKinds))]
+			if r.IntN(2) == 0 {
+				p["rerand"] = 1 + r.IntN(1<<20)
+			}
 			nodes = s
 		} else {
 			n, t := nt(r, 5)
@@ -334,6 +352,22 @@ func fillProtoParams(r *rand.Rand, tier string, proto string, p map[string]inter
 	if _, set := p["edges"]; !set {
 		p["edges"] = r.IntN(2) == 0 // entropy with leading-zero values in half of the runs
 	}
+	// the free-form id strings of the party ids: unique mostly, all blank or shared now and then
+	p["idstrings"] = []string{"", "", "", "", "blank", "dup"}[r.IntN(6)]
+	if (proto[3:] == "sign" || proto == "ec-reshare") && r.IntN(8) == 0 {
+		p["shortssid"] = true // a key set whose session id has a leading zero byte (ssid.go)
+		if proto == "ed-sign" {
+			// ten parties: the signer sets of one key give about a thousand candidate session ids
+			p["n"], p["t"] = 10, 1+r.IntN(3)
+		}
+	}
+	if proto[3:] == "reshare" {
+		// partyCount = number of key holders although only a subset takes part (as in the library's own tests)
+		p["fullcount"] = r.IntN(2) == 0
+		if ec && r.IntN(2) == 0 {
+			p["rerand"] = 1 + r.IntN(1<<20)
+		}
+	}
 	return nodes
 }
 
@@ -347,6 +381,9 @@ func genC07(tier string, seed uint64, run int) *Scenario {
 	proto, _ := protoForRun(r, tier, run, ecEvery)
 	p := map[string]interface{}{"proto": proto, "ref": true, "model": true}
 	nodes := fillProtoParams(r, tier, proto, p)
+	if strings.HasPrefix(proto, "ec-") && proto != "ec-keygen" && (run/ecEvery)%6 < 3 {
+		p["shortssid"] = true // every second ECDSA signing / resharing run: a session id with a leading zero byte
+	}
 	sc := &Scenario{Check: "C07", Kind: "proto", Seed: seed, Run: run, P: p}
 	sc.Sched = GenSched(r, nodes, true, false)
 	// directed strategies get a fixed share of the runs
